@@ -155,7 +155,8 @@ class CollationManager(context_class_base):
 
             try:
                 locale.setlocale(locale.LC_COLLATE, self.lc_collate)
-            except locale.Error:
+            except (locale.Error, ValueError):
+                # ValueError: a locale name with a NUL character or a lone surrogate
                 if self.fallback:
                     try:
                         locale.setlocale(locale.LC_COLLATE, 'en_US.UTF-8')
